@@ -118,7 +118,7 @@ def snap_order(o):
 
 
 class OpResult:
-    __slots__ = ("op", "result", "error", "order", "m", "idx", "now", "target")
+    __slots__ = ("op", "result", "error", "order", "m", "idx", "now", "target", "cross")
 
 
 class ScriptStrategy:
@@ -249,12 +249,23 @@ def make_strategy_class():
             self.my_orders.append(order)
             return order
 
-        def run_ops(self, market, market_book, ops, mi, idx, transaction=None):
+        def run_ops(self, market, market_book, ops, mi, idx, transaction=None, cross=False):
             for op in ops:
+                if op["op"] == "on":
+                    # requests on ANOTHER market of the framework, issued while this market's update is processed
+                    # (event-grouped runs): results are recorded against the target market and its latest update
+                    tm = op["tm"]
+                    m2 = self.lab.fw.markets.markets.get(self.lab.market_specs[tm]["id"])
+                    if m2 is None or m2.market_book is None:
+                        continue
+                    self.run_ops(m2, m2.market_book, op["ops"], tm, self.counters.get(m2.market_id, 0) - 1,
+                                 cross=(m2 is not market))
+                    continue
                 res = OpResult()
                 res.op = op
                 res.m = mi
                 res.idx = idx
+                res.cross = cross
                 res.now = _dt.datetime.utcnow()
                 res.result = None
                 res.error = None
@@ -282,7 +293,7 @@ def make_strategy_class():
                     elif kind == "txn":
                         client = self.lab.clients[self.sspec.get("client", 0)]
                         with market.transaction(client=client) as txn:
-                            self.run_ops(market, market_book, op["ops"], mi, idx, transaction=txn)
+                            self.run_ops(market, market_book, op["ops"], mi, idx, transaction=txn, cross=cross)
                         res.result = True
                     elif kind == "execute" and transaction is not None:
                         res.result = transaction.execute()
@@ -457,8 +468,9 @@ class Lab:
                 mf["event_processing"] = True
                 if scenario.get("event_groups"):
                     mf["event_groups"] = dict(scenario["event_groups"])
-            if scenario.get("listener_kwargs"):
-                mf["listener_kwargs"] = dict(scenario["listener_kwargs"])
+            lk_ = s.get("listener_kwargs", scenario.get("listener_kwargs"))  # per-strategy override
+            if lk_:
+                mf["listener_kwargs"] = dict(lk_)
             kw = {}
             for k in ("max_order_exposure", "max_selection_exposure", "max_market_exposure", "max_trade_count",
                       "max_live_trade_count", "multi_order_trades"):
